@@ -27,6 +27,11 @@ type pitInst struct {
 	// latest deadline (arrival + lifetime) among the Interests recorded in a PIT entry since it
 	// was created: key -> deadline
 	deadline map[string]time.Time
+	// reference of "satisfied": PIT entries holding an unexpired Interest that an arriving Data
+	// satisfied by the rule of the property text (echo of the token this forwarder attached, else
+	// name equal / prefix with CanBePrefix), whatever face the Data arrived on: key -> arrival time.
+	// Independent of the implementation's own satisfied flag and record clearing.
+	satAt map[string]time.Time
 }
 
 type pitSys struct {
@@ -37,42 +42,184 @@ type pitSys struct {
 
 const tick = 100 * time.Millisecond
 
-func newPitSys(strategy string, cs bool, fib string) *pitSys {
+// csMode: "cs" = admit + serve, "csa" = admit only (every Data is cached, no Interest is answered
+// from the cache: cache entries and pending Interests share name-tree nodes), "nocs" = neither.
+// capacity: content-store capacity (a management-configurable value); with the 2-3 Data names of
+// the alphabets, capacity >= 3 never evicts, 2 evicts in the "pitc" alphabet only, 1 evicts as soon
+// as a second name is cached, 0 evicts every Data right after it was admitted.
+func newPitSys(slice, strategy, csMode, fib string, capacity int) *pitSys {
 	s := &pitSys{do: map[string]func(in *pitInst){}}
 	s.cfg = fwsim.Config{
-		FibAlgo: fib, HashtableM: 2, CsCapacity: 2, CsAdmit: cs, CsServe: cs, DnlLifetime: 2 * time.Second,
+		FibAlgo: fib, HashtableM: 2, CsCapacity: capacity, CsCapacityExact: true,
+		CsAdmit: csMode == "cs" || csMode == "csa", CsServe: csMode == "cs", DnlLifetime: 2 * time.Second,
 		Routes:     []fwsim.Route{{Prefix: "/a", Face: fwsim.N2, Cost: 1}, {Prefix: "/", Face: fwsim.N3, Cost: 2}},
 		Strategies: []fwsim.StrategyChoice{{Prefix: "/", Strategy: strategy}},
 	}
-	add := func(n string, f func(in *pitInst)) { s.ops = append(s.ops, explore.Op{Name: n}); s.do[n] = f }
+	add := func(n string, f func(in *pitInst)) {
+		if _, dup := s.do[n]; dup {
+			report.Fatal("pit alphabet: duplicate op %q", n)
+		}
+		s.ops = append(s.ops, explore.Op{Name: n})
+		s.do[n] = f
+	}
+	// addI: one Interest arrival. mbf = MustBeFresh.
+	addI := func(face uint64, name string, cbp, mbf bool, nonce uint32, life time.Duration) {
+		label := fmt.Sprintf("I(f%d,%s,cbp=%v,n%d,%v)", face, name, cbp, nonce, life)
+		if mbf {
+			label = fmt.Sprintf("I(f%d,%s,cbp=%v,mbf,n%d,%v)", face, name, cbp, nonce, life)
+		}
+		add(label, func(in *pitInst) {
+			k := entryKey(name, cbp, mbf, "")
+			// a new Interest re-opens the entry: what an earlier Data satisfied is consumed
+			delete(in.satAt, k)
+			sent := in.sim.Interest(face, fwsim.InterestSpec{Name: name, CanBePrefix: cbp, MustBeFresh: mbf, Nonce: fwsim.U32(nonce), Lifetime: fwsim.Dur(life)}, fwsim.LP{})
+			in.recorded(k, life)
+			for _, x := range sent {
+				if x.Kind == fwsim.KInterest && len(x.PitToken) > 0 {
+					in.tokens = append(in.tokens, x.PitToken)
+				}
+			}
+		})
+	}
+	// addD: one Data arrival on `face`. fresh < 0: no FreshnessPeriod (stale as soon as cached).
+	// tok "echo": the Data echoes the token this forwarder attached to the last Interest it sent.
+	addD := func(face uint64, name string, fresh time.Duration, tok string) {
+		label := fmt.Sprintf("D(f%d,%s,tok=%s)", face, name, tok)
+		if fresh < 0 {
+			label = fmt.Sprintf("D(f%d,%s,nofresh,tok=%s)", face, name, tok)
+		}
+		add(label, func(in *pitInst) {
+			lp := fwsim.LP{}
+			if tok == "echo" && len(in.tokens) > 0 {
+				lp.PitToken = in.tokens[len(in.tokens)-1]
+			}
+			ds := fwsim.DataSpec{Name: name, Content: "x"}
+			if fresh >= 0 {
+				ds.Freshness = fwsim.Dur(fresh)
+			}
+			in.data(face, ds, lp)
+		})
+	}
+	tops := func(dts ...time.Duration) {
+		for _, dt := range dts {
+			dt := dt
+			add(fmt.Sprintf("T(%v)", dt), func(in *pitInst) { in.run(dt) })
+		}
+	}
+	switch slice {
+	case "pit":
+		s.basePit(add, addI, addD)
+		tops(100*time.Millisecond, 300*time.Millisecond, 1100*time.Millisecond)
+	case "pitm":
+		// Data that satisfies SEVERAL pending Interests at once (exact name + CanBePrefix on a
+		// prefix + the MustBeFresh twin on the same node: the multi-match branch of the Data
+		// pipeline) and Data arriving on a face that is itself a downstream (consumer and producer
+		// behind the same face), possibly the only one of an entry; lifetimes {0, 1 s}: an explicit
+		// InterestLifetime of 0 is a legal value (the Interest expires at once).
+		for _, face := range []uint64{fwsim.L1, fwsim.N4} {
+			for _, life := range []time.Duration{time.Second, 0} {
+				addI(face, "/a", true, false, 1, life)
+				addI(face, "/a/b", false, false, 1, life)
+				addI(face, "/a/b", false, true, 1, life)
+			}
+		}
+		for _, face := range []uint64{fwsim.N2, fwsim.N4, fwsim.L1} {
+			for _, name := range []string{"/a", "/a/b"} {
+				addD(face, name, time.Second, "none")
+			}
+		}
+		addD(fwsim.N2, "/a/b", time.Second, "echo")
+		tops(100*time.Millisecond, 300*time.Millisecond)
+	case "pitc":
+		// cache entries and pending Interests on the same / nested name-tree nodes: Data without
+		// FreshnessPeriod is stale at once, so a MustBeFresh Interest stays pending next to it (with
+		// "csa" every Interest does); three Data names against capacity 0/1/2: eviction, by
+		// solicited and unsolicited Data, of an entry at, below and above a node holding PIT entries.
+		for _, sh := range []struct {
+			name     string
+			cbp, mbf bool
+		}{{"/a/b", false, false}, {"/a/b", false, true}, {"/a", true, false}, {"/a", true, true}} {
+			addI(fwsim.L1, sh.name, sh.cbp, sh.mbf, 1, time.Second)
+		}
+		addI(fwsim.N4, "/a/b", false, true, 1, time.Second)
+		addI(fwsim.L1, "/a/b", false, true, 2, 200*time.Millisecond)
+		for _, fresh := range []time.Duration{-1, time.Second} {
+			for _, name := range []string{"/a", "/a/b", "/a/b/c"} {
+				addD(fwsim.N2, name, fresh, "none")
+			}
+		}
+		addD(fwsim.N2, "/a/b", -1, "echo")
+		tops(100*time.Millisecond, 1100*time.Millisecond)
+	default:
+		report.Fatal("unknown pit alphabet %q", slice)
+	}
+	return s
+}
+
+// recorded notes that an Interest with the given lifetime arrived for entry k: if the entry exists
+// afterwards, its deadline is the latest arrival + lifetime among the Interests recorded in it.
+func (in *pitInst) recorded(k string, life time.Duration) {
+	for _, e := range in.sim.Dump().Pit {
+		if entryKey(e.Name, e.CanBePrefix, e.MustBeFresh, e.Hint) == k {
+			if dl, ok := in.deadline[k]; !ok || in.sim.Now().Add(life).After(dl) {
+				in.deadline[k] = in.sim.Now().Add(life)
+			}
+		}
+	}
+}
+
+func isPrefixOf(prefix, name string) bool {
+	return prefix == "/" || name == prefix || strings.HasPrefix(name, prefix+"/")
+}
+
+// data injects one Data arrival and notes, by the match rule of the property text alone, which
+// pending Interests (PIT entries with an unexpired in-record just before the arrival) it satisfies.
+func (in *pitInst) data(face uint64, ds fwsim.DataSpec, lp fwsim.LP) {
+	before := in.sim.Dump()
+	now := in.sim.Now()
+	in.sim.Data(face, ds, lp)
+	_, et, byToken := fwsim.IssuedToken(lp.PitToken)
+	for _, e := range before.Pit {
+		pending := false
+		for _, r := range e.In {
+			if r.ExpireIn > 0 {
+				pending = true
+			}
+		}
+		if !pending {
+			continue
+		}
+		hit := false
+		if byToken {
+			hit = e.InTokenMap && e.Token == et
+		} else {
+			hit = e.Name == ds.Name || (e.CanBePrefix && isPrefixOf(e.Name, ds.Name))
+		}
+		if hit {
+			k := entryKey(e.Name, e.CanBePrefix, e.MustBeFresh, e.Hint)
+			if _, ok := in.satAt[k]; !ok {
+				in.satAt[k] = now
+			}
+		}
+	}
+}
+
+// basePit is the original alphabet: two faces, /a (exact and CanBePrefix) and /a/b, two nonces,
+// lifetimes 200 ms / 1 s, NextHopFaceId, a retransmission burst, Data from the upstream face by
+// name and by token.
+func (s *pitSys) basePit(add func(string, func(in *pitInst)), addI func(uint64, string, bool, bool, uint32, time.Duration), addD func(uint64, string, time.Duration, string)) {
 	for _, face := range []uint64{fwsim.L1, fwsim.N4} {
 		for _, name := range []string{"/a", "/a/b"} {
 			for _, cbp := range []bool{false, true} {
 				for _, nonce := range []uint32{1, 2} {
 					for _, life := range []time.Duration{200 * time.Millisecond, time.Second} {
-						face, name, cbp, nonce, life := face, name, cbp, nonce, life
 						if cbp && name == "/a/b" {
 							continue
 						}
 						if nonce == 2 && life == time.Second {
 							continue
 						}
-						add(fmt.Sprintf("I(f%d,%s,cbp=%v,n%d,%v)", face, name, cbp, nonce, life), func(in *pitInst) {
-							sent := in.sim.Interest(face, fwsim.InterestSpec{Name: name, CanBePrefix: cbp, Nonce: fwsim.U32(nonce), Lifetime: fwsim.Dur(life)}, fwsim.LP{})
-							k := entryKey(name, cbp, false, "")
-							for _, e := range in.sim.Dump().Pit {
-								if entryKey(e.Name, e.CanBePrefix, e.MustBeFresh, e.Hint) == k {
-									if dl := in.sim.Now().Add(life); dl.After(in.deadline[k]) {
-										in.deadline[k] = dl
-									}
-								}
-							}
-							for _, x := range sent {
-								if x.Kind == fwsim.KInterest && len(x.PitToken) > 0 {
-									in.tokens = append(in.tokens, x.PitToken)
-								}
-							}
-						})
+						addI(face, name, cbp, false, nonce, life)
 					}
 				}
 			}
@@ -82,15 +229,10 @@ func newPitSys(strategy string, cs bool, fib string) *pitSys {
 	// straight to that face, bypassing the strategy
 	add("I(f1,/a,n1,1s,nexthop=N2)", func(in *pitInst) {
 		nh := fwsim.N2
-		in.sim.Interest(fwsim.L1, fwsim.InterestSpec{Name: "/a", Nonce: fwsim.U32(1), Lifetime: fwsim.Dur(time.Second)}, fwsim.LP{NextHopFaceID: &nh})
 		k := entryKey("/a", false, false, "")
-		for _, e := range in.sim.Dump().Pit {
-			if entryKey(e.Name, e.CanBePrefix, e.MustBeFresh, e.Hint) == k {
-				if dl := in.sim.Now().Add(time.Second); dl.After(in.deadline[k]) {
-					in.deadline[k] = dl
-				}
-			}
-		}
+		delete(in.satAt, k)
+		in.sim.Interest(fwsim.L1, fwsim.InterestSpec{Name: "/a", Nonce: fwsim.U32(1), Lifetime: fwsim.Dur(time.Second)}, fwsim.LP{NextHopFaceID: &nh})
+		in.recorded(k, time.Second)
 	})
 	// NextHopFaceId that the forwarder must refuse: a face that does not exist, and the arrival
 	// face itself. The Interest is dropped, but whatever PIT state it created must still drain.
@@ -101,49 +243,27 @@ func newPitSys(strategy string, cs bool, fib string) *pitSys {
 		v := v
 		add(fmt.Sprintf("I(f1,/a/b,n1,200ms,nexthop=%s)", v.label), func(in *pitInst) {
 			nh := v.nh
-			in.sim.Interest(fwsim.L1, fwsim.InterestSpec{Name: "/a/b", Nonce: fwsim.U32(1), Lifetime: fwsim.Dur(200 * time.Millisecond)}, fwsim.LP{NextHopFaceID: &nh})
 			k := entryKey("/a/b", false, false, "")
-			for _, e := range in.sim.Dump().Pit {
-				if entryKey(e.Name, e.CanBePrefix, e.MustBeFresh, e.Hint) == k {
-					if dl := in.sim.Now().Add(200 * time.Millisecond); dl.After(in.deadline[k]) {
-						in.deadline[k] = dl
-					}
-				}
-			}
+			delete(in.satAt, k)
+			in.sim.Interest(fwsim.L1, fwsim.InterestSpec{Name: "/a/b", Nonce: fwsim.U32(1), Lifetime: fwsim.Dur(200 * time.Millisecond)}, fwsim.LP{NextHopFaceID: &nh})
+			in.recorded(k, 200*time.Millisecond)
 		})
 	}
 	// a burst of retransmissions with fresh nonces: every one moves the previous nonce to the dead
 	// nonce list, so >100 records fall due in the same reaper tick (the reaper removes <=100 per tick)
 	add("Burst(f1,/a/b,103 nonces,200ms)", func(in *pitInst) {
+		k := entryKey("/a/b", false, false, "")
+		delete(in.satAt, k)
 		for i := 0; i < 103; i++ {
 			in.sim.Interest(fwsim.L1, fwsim.InterestSpec{Name: "/a/b", Nonce: fwsim.U32(uint32(1000 + i)), Lifetime: fwsim.Dur(200 * time.Millisecond)}, fwsim.LP{})
 		}
-		k := entryKey("/a/b", false, false, "")
-		for _, e := range in.sim.Dump().Pit {
-			if entryKey(e.Name, e.CanBePrefix, e.MustBeFresh, e.Hint) == k {
-				if dl := in.sim.Now().Add(200 * time.Millisecond); dl.After(in.deadline[k]) {
-					in.deadline[k] = dl
-				}
-			}
-		}
+		in.recorded(k, 200*time.Millisecond)
 	})
 	for _, name := range []string{"/a", "/a/b"} {
 		for _, tok := range []string{"none", "echo"} {
-			name, tok := name, tok
-			add(fmt.Sprintf("D(f2,%s,tok=%s)", name, tok), func(in *pitInst) {
-				lp := fwsim.LP{}
-				if tok == "echo" && len(in.tokens) > 0 {
-					lp.PitToken = in.tokens[len(in.tokens)-1]
-				}
-				in.sim.Data(fwsim.N2, fwsim.DataSpec{Name: name, Freshness: fwsim.Dur(time.Second), Content: "x"}, lp)
-			})
+			addD(fwsim.N2, name, time.Second, tok)
 		}
 	}
-	for _, dt := range []time.Duration{100 * time.Millisecond, 300 * time.Millisecond, 1100 * time.Millisecond} {
-		dt := dt
-		add(fmt.Sprintf("T(%v)", dt), func(in *pitInst) { in.run(dt) })
-	}
-	return s
 }
 
 // run advances the clock in reaper-interval steps, running the periodic arms each step.
@@ -160,7 +280,7 @@ func (in *pitInst) run(d time.Duration) {
 }
 
 func (s *pitSys) New() any {
-	return &pitInst{sim: fwsim.New(s.cfg), bare: map[string]time.Time{}, deadline: map[string]time.Time{}}
+	return &pitInst{sim: fwsim.New(s.cfg), bare: map[string]time.Time{}, deadline: map[string]time.Time{}, satAt: map[string]time.Time{}}
 }
 func (s *pitSys) Ops(any) []explore.Op    { return s.ops }
 func (s *pitSys) Do(i any, op explore.Op) { in := i.(*pitInst); s.do[op.Name](in); in.track() }
@@ -181,6 +301,11 @@ func (in *pitInst) track() {
 	for k := range in.deadline {
 		if !present[k] {
 			delete(in.deadline, k)
+		}
+	}
+	for k := range in.satAt {
+		if !present[k] {
+			delete(in.satAt, k)
 		}
 	}
 	for _, e := range d.Pit {
@@ -228,6 +353,13 @@ func (in *pitInst) whenViolations() (v []report.Violation) {
 	d := in.sim.Dump()
 	now := in.sim.Now()
 	for _, e := range d.Pit {
+		// "or promptly once it is satisfied": every entry an arriving Data satisfied (by the match
+		// rule of the property text, whichever face the Data came from, however many entries it
+		// satisfied at once) must be gone within two reaper ticks, records or not
+		if t0, ok := in.satAt[entryKey(e.Name, e.CanBePrefix, e.MustBeFresh, e.Hint)]; ok && now.Sub(t0) > 2*tick && len(e.In)+len(e.Out) > 0 {
+			v = append(v, report.Violation{Clause: "C08.when", Key: "PIT entry satisfied by Data keeps its records and is not removed promptly", Detail: fmt.Sprintf("entry %s cbp=%v mbf=%v held an unexpired Interest when a Data satisfying it arrived %v ago, and is still in the PIT with %d in-/%d out-records (satisfied flag=%v, queued=%v)", e.Name, e.CanBePrefix, e.MustBeFresh, now.Sub(t0), len(e.In), len(e.Out), e.Satisfied, e.Queued)})
+			continue
+		}
 		if len(e.In)+len(e.Out) > 0 {
 			// "no later than shortly after the latest lifetime among the Interests recorded in it"
 			dl, ok := in.deadline[entryKey(e.Name, e.CanBePrefix, e.MustBeFresh, e.Hint)]
@@ -315,6 +447,9 @@ func (s *pitSys) Canon(i any) string {
 		if dl, ok := in.deadline[entryKey(e.Name, e.CanBePrefix, e.MustBeFresh, e.Hint)]; ok {
 			fmt.Fprintf(&b, " dl=%v", sat(dl.Sub(now)))
 		}
+		if t0, ok := in.satAt[entryKey(e.Name, e.CanBePrefix, e.MustBeFresh, e.Hint)]; ok {
+			fmt.Fprintf(&b, " satisfied=%v", sat(now.Sub(t0)))
+		}
 		b.WriteString("]")
 	}
 	for _, q := range in.sim.Queue() {
@@ -339,12 +474,18 @@ func (s *pitSys) Canon(i any) string {
 }
 
 func buildPit(cfg string) explore.System {
-	f := strings.Fields(cfg) // pit <strategy> <cs> <fib>
+	f := strings.Fields(cfg) // pit|pitm|pitc <strategy> cs|csa|nocs <fib> [cap=N]
 	st := fwsim.BestRoute
 	if f[1] == "mc" {
 		st = fwsim.Multicast
 	}
-	return newPitSys(st, f[2] == "cs", f[3])
+	capacity := 2
+	for _, x := range f[4:] {
+		if _, err := fmt.Sscanf(x, "cap=%d", &capacity); err != nil {
+			report.Fatal("bad pit config %q", cfg)
+		}
+	}
+	return newPitSys(f[0], st, f[2], f[3], capacity)
 }
 
 func pitConfigs(th bool) []explore.Config {
@@ -353,6 +494,21 @@ func pitConfigs(th bool) []explore.Config {
 		d = 5
 	}
 	var c []explore.Config
+	// (the small focused alphabets first: what they leave of their share of the budget goes to the
+	// wide base alphabet)
+	// multi-match / Data from a downstream face / lifetime 0
+	for _, name := range []string{"pitm br cs nametree", "pitm mc nocs hashtable"} {
+		c = append(c, explore.Config{Name: name, MaxDepth: d, MaxDev: -1})
+	}
+	// cache entries next to pending Interests under content-store capacities 1, 0, 2
+	c = append(c, explore.Config{Name: "pitc br cs nametree cap=1", MaxDepth: d + 1, MaxDev: -1})
+	c = append(c, explore.Config{Name: "pitc mc csa hashtable cap=0", MaxDepth: d + 1, MaxDev: -1})
+	c = append(c, explore.Config{Name: "pitc mc cs nametree cap=2", MaxDepth: d, MaxDev: -1})
+	if th {
+		for _, name := range []string{"pitc mc csa nametree cap=1", "pitc br cs hashtable cap=0", "pitc br csa nametree cap=2", "pitm mc cs nametree cap=1", "pitm br csa nametree cap=0"} {
+			c = append(c, explore.Config{Name: name, MaxDepth: d, MaxDev: -1})
+		}
+	}
 	for _, name := range []string{"pit br cs nametree", "pit mc cs nametree", "pit br nocs hashtable", "pit mc nocs nametree"} {
 		c = append(c, explore.Config{Name: name, MaxDepth: d, MaxDev: -1})
 	}
